@@ -225,11 +225,7 @@ pub fn run_case(c: &Case, path: &std::path::Path, st: &mut St) -> Result<Vec<(St
                     }
                     FORBID_GROW.with(|f| f.set(false));
                     if run.out.aborted {
-                        return Err(format!(
-                            "writer step {} disagreed with the model (belongs to C01): {:?}",
-                            si,
-                            run.out.violations.first().map(|v| v.detail.clone())
-                        ));
+                        return Err(crate::report::workload_failure(run.out.violations.first(), &format!("writer step {} was cut short", si)));
                     }
                     if script.end == End::Commit {
                         n_commits += 1;
@@ -336,7 +332,7 @@ pub fn run(ctx: &Ctx) -> Shard {
                     shard.violation(ctx, &sig, &detail, &replay);
                 }
             }
-            Err(e) => shard.inconclusive(e),
+            Err(e) => shard.inconclusive_or_workload(ctx, "", &e, &serde_json::json!({"kind": "c03", "c03_case": c})),
         }
         let _ = std::fs::remove_file(&path);
         shard.evaluations += 1;
